@@ -487,6 +487,18 @@ class History:
             self.lines.append(f"Definition {name3} : N := if srcsorted_b {srcname} && srcvalid_b {srcname} && srcwf_b {srcname} "
                               f"&& conf_b {self.state} && ainv_b {self.state} && wfparents_b pre {self.state} then 0 else 7.")
             self.checks.append((name3, f"premises/invariants (SrcSorted, SrcValid, SrcWF, Conf, AInv, WFparents) at step {self.k}"))
+        if op == "restore" and res.get("result") == "ok" and res.get("tree") and not step.get("subtree"):
+            # what the model says each file restores to == the bytes found in the restored tree
+            from . import gen as _gen
+            files = sorted(tree_data(res["tree"]).items(), key=lambda kv: _gen.apath_key(kv[0]))
+            impl_files = gallina_list(["(" + gallina_str(p) + "," + gallina_str(d) + ")" for p, d in files])
+            name2 = f"c_{self.cid}_{self.k}_restored"
+            self.lines.append(
+                f"Definition {name2} : N := match r_out {s} with Store.Done r => "
+                f"if list_eqb (fun x y => str_eqb (fst x) (fst y) && str_eqb (snd x) (snd y)) "
+                f"(flat_map (fun f => match f with RFile e (Some c) => match e_kind e with KFile => [(e_apath e, c)] | _ => [] end | _ => [] end) (r_files r)) "
+                f"{impl_files} then 0 else 4 | _ => 4 end.")
+            self.checks.append((name2, f"restored file contents at step {self.k}"))
         if op == "list" and res.get("result") == "ok":
             ents = gallina_list([coqfmt.g_entry(e["raw"], self.names.by_hash) for e in res["value"]])
             name2 = f"c_{self.cid}_{self.k}_entries"
